@@ -14,6 +14,7 @@ import (
 	"sort"
 
 	ngxclient "github.com/nginxinc/nginx-plus-go-client/client"
+	apiv1 "k8s.io/api/core/v1"
 	discoveryV1 "k8s.io/api/discovery/v1"
 	"k8s.io/apimachinery/pkg/types"
 	"k8s.io/client-go/tools/record"
@@ -99,9 +100,15 @@ type recProcessor struct {
 	lastCT    state.ChangeType
 	lastGraph *graph.Graph // graph of the last batch that was not NoChange
 	called    bool
+	// onProcess runs when the handler calls Process(), i.e. after parseAndCaptureEvent of every event of the batch (where
+	// the out-of-batch callbacks for the NGF front Service run) and before the batch's own apply / status update
+	onProcess func()
 }
 
 func (r *recProcessor) Process() (state.ChangeType, *graph.Graph) {
+	if r.onProcess != nil {
+		r.onProcess()
+	}
 	ct, g := r.ChangeProcessor.Process()
 	r.called, r.lastCT = true, ct
 	if ct != state.NoChange {
@@ -129,7 +136,23 @@ type HBatch struct {
 	API    bool   `json:"api"`
 	ObsErr bool   `json:"obsErr"` // handler.latestReloadResult.Error != nil after the batch
 	ObsVer int    `json:"obsVer"` // handler.version after the batch
-	ObsSt  bool   `json:"obsSt"`  // the batch issued status updates
+	ObsSt  bool   `json:"obsSt"`  // the batch's own updateStatuses issued status updates (after Process)
+	// the batch contained an upsert ("u") / delete ("d") of the Service that fronts NGF: nginxGatewayServiceUpsert/Delete
+	// rewrite the Gateway statuses OUTSIDE batch processing, with the remembered reload result
+	Svc      string `json:"svc,omitempty"`
+	ObsSvcSt bool   `json:"obsSvcSt"` // a status update was issued before Process() (by that callback)
+}
+
+// the Service that fronts NGF (gatewayPodConfig of the overlay constructor VerifC07NewHandler)
+const ngfSvcNamespace, ngfSvcName = "nginx-gateway", "nginx-gateway"
+
+func ngfFrontService(r *rng.R) *apiv1.Service {
+	svc := p.Service(ngfSvcNamespace, ngfSvcName, 80)
+	svc.Spec.Type = apiv1.ServiceTypeLoadBalancer
+	if r.Chance(70, 100) {
+		svc.Status.LoadBalancer.Ingress = []apiv1.LoadBalancerIngress{{IP: fmt.Sprintf("192.0.2.%d", r.Range(1, 250))}}
+	}
+	return svc
 }
 
 type HInfo struct {
@@ -213,12 +236,44 @@ func RunSequence(id string, s *Scenario, r *rng.R, nb int, emit func(Line)) {
 	for b := 0; b < nb; b++ {
 		var batch events.EventBatch
 		want := "c"
+		// state before this batch: what an out-of-batch Gateway status write during the batch is held against
+		prevFail, prevStale := lastFail, stale
+		before := make([]client.Object, 0, len(order))
+		for _, o := range objsNow() {
+			before = append(before, o.DeepCopyObject().(client.Object))
+		}
+		svcEvent := ""
+		if b > 0 && r.Chance(35, 100) {
+			// the Service that fronts NGF changes (LoadBalancer address assigned / changed) or is deleted; alone in the
+			// batch (60 %) or followed / preceded by one of the usual events
+			if r.Chance(75, 100) {
+				svcEvent = "u"
+			} else {
+				svcEvent = "d"
+			}
+		}
+		svcFirst := r.Bool()
+		addSvc := func() {
+			switch svcEvent {
+			case "u":
+				batch = append(batch, upsert(ngfFrontService(r)))
+			case "d":
+				batch = append(batch, del(&apiv1.Service{}, p.KeyOf(p.Service(ngfSvcNamespace, ngfSvcName, 80))))
+			}
+		}
+		if svcEvent != "" && svcFirst {
+			addSvc()
+		}
 		if b == 0 {
 			for _, o := range objsNow() {
 				batch = append(batch, upsert(o))
 			}
 		} else {
-			switch x := r.Intn(100); {
+			x := r.Intn(100)
+			if svcEvent != "" && r.Chance(60, 100) {
+				x = 99 // the Service event is alone in the batch
+			}
+			switch {
 			case x < 35:
 				want = "c"
 				var routes []p.Key
@@ -266,6 +321,9 @@ func RunSequence(id string, s *Scenario, r *rng.R, nb int, emit func(Line)) {
 			}
 		}
 		_ = want
+		if svcEvent != "" && !svcFirst {
+			addSvc()
+		}
 
 		// outcome of this batch's apply
 		fm.ok, rt.reloadOK, rt.apiOK = true, true, true
@@ -286,6 +344,14 @@ func RunSequence(id string, s *Scenario, r *rng.R, nb int, emit func(Line)) {
 		fm.called, rt.reloaded, rt.reloadErr, rt.apiErr = false, false, false, false
 		proc.called = false
 		upd.reqs, upd.calls = nil, 0
+		// what the out-of-batch callbacks did (before Process): requests issued, and the result the handler remembered then
+		var preReqs []frameworkStatus.UpdateRequest
+		preCalls, preErr := 0, false
+		proc.onProcess = func() {
+			preReqs = append([]frameworkStatus.UpdateRequest(nil), upd.reqs...)
+			preCalls = upd.calls
+			preErr = h.LatestReloadErr() != nil
+		}
 
 		panicked := ""
 		func() {
@@ -302,6 +368,38 @@ func RunSequence(id string, s *Scenario, r *rng.R, nb int, emit func(Line)) {
 			ln.Objs = FlatObjects(objsNow())
 			emit(ln)
 			return
+		}
+
+		// the Gateway statuses written by nginxGatewayServiceUpsert/Delete, as they stood before the batch itself was
+		// processed: one extra Line, held against the truth BEFORE this batch (graph, configuration, objects of the previous
+		// batches; `h` = the history so far)
+		if svcEvent != "" && len(preReqs) > 0 {
+			res, _, tg := p.ApplyStatuses(preReqs, before)
+			mid := Line{ID: fmt.Sprintf("%s-b%d-svc%s", id, b, svcEvent), Ctl: opts.Controller, Cls: opts.Class, Tags: tags, Targets: []string{}}
+			for _, t := range tg {
+				mid.Targets = append(mid.Targets, t.String())
+			}
+			sort.Strings(mid.Targets)
+			switch {
+			case prevFail:
+				mid.FailKind = "apply-failed"
+			case prevStale:
+				mid.FailKind = "stale-after-plus-endpoints-only-update"
+			}
+			pe := preErr
+			hc := HInfo{Plus: plus, Batches: append([]HBatch(nil), hist.Batches...)}
+			mid.ReloadErr = prevFail || prevStale
+			mid.PrepErr = &pe
+			mid.H = &hc
+			mid.Sum = lastSum
+			mid.Conf = lastConf
+			mid.Objs = FlatObjects(before)
+			mid.St = Statuses(before, res)
+			tags["h-svc-"+svcEvent]++
+			if mid.ReloadErr {
+				tags["h-svc-after-failed-apply"]++
+			}
+			emit(mid)
 		}
 
 		ct := "n"
@@ -346,7 +444,7 @@ func RunSequence(id string, s *Scenario, r *rng.R, nb int, emit func(Line)) {
 
 		obsErr := h.LatestReloadErr() != nil
 		hist.Batches = append(hist.Batches, HBatch{Ct: ct, W: fm.ok, R: rt.reloadOK, API: rt.apiOK,
-			ObsErr: obsErr, ObsVer: h.Version(), ObsSt: upd.calls > 0})
+			ObsErr: obsErr, ObsVer: h.Version(), ObsSt: upd.calls-preCalls > 0, Svc: svcEvent, ObsSvcSt: preCalls > 0})
 		hc := HInfo{Plus: plus, Batches: append([]HBatch(nil), hist.Batches...)}
 
 		ln.ReloadErr = lastFail || stale
